@@ -42,6 +42,8 @@ type C16Case struct {
 	Class string  `json:"class"`
 	Src   string  `json:"src"`
 	Plan  C16Plan `json:"plan"`
+	// Symlink: FILE is a symbolic link to the real file (in the same directory)
+	Symlink bool `json:"symlink,omitempty"`
 }
 
 func init() {
@@ -111,6 +113,7 @@ func genC16(t *rapid.T) any {
 			c.Src = base[:at] + junk + base[at:]
 		}
 	}
+	c.Symlink = rapid.IntRange(0, 3).Draw(t, "symlink") == 3
 	return c
 }
 
@@ -160,6 +163,9 @@ func checkC16(raw json.RawMessage) iso.Result {
 	os.Mkdir(k.cwd, 0o755)
 	col := k.col
 	col.Label("class:"+c.Class, "plan:"+c.Plan.Kind)
+	if c.Symlink {
+		col.Label("file:symlink")
+	}
 	if c.Plan.Kind == "fsize" {
 		col.Label(fmt.Sprintf("fsize:%d", c.Plan.FSize))
 	}
@@ -287,12 +293,21 @@ func (k *c16Ctx) fresh(dirMode os.FileMode, fileUID, fileGID int) error {
 	if err := os.Mkdir(k.dir, 0o755); err != nil {
 		return err
 	}
-	if err := os.WriteFile(k.file, k.orig, 0o644); err != nil {
+	real := k.file
+	if k.c.Symlink {
+		real = filepath.Join(k.dir, "real.vcl")
+	}
+	if err := os.WriteFile(real, k.orig, 0o644); err != nil {
 		return err
 	}
-	os.Chmod(k.file, 0o644)
+	os.Chmod(real, 0o644)
 	if fileUID != 0 || fileGID != 0 {
-		if err := os.Chown(k.file, fileUID, fileGID); err != nil {
+		if err := os.Chown(real, fileUID, fileGID); err != nil {
+			return err
+		}
+	}
+	if k.c.Symlink {
+		if err := os.Symlink("real.vcl", k.file); err != nil {
 			return err
 		}
 	}
